@@ -9,6 +9,7 @@ package main
 import (
 	"bytes"
 	"context"
+	"encoding/hex"
 	"encoding/json"
 	"flag"
 	"fmt"
@@ -17,6 +18,7 @@ import (
 	"sort"
 	"strconv"
 	"strings"
+	"unicode/utf8"
 
 	"github.com/ozontech/seq-db/frac"
 	"github.com/ozontech/seq-db/frac/token"
@@ -63,7 +65,64 @@ func (q query) String() string {
 	return l + f + ", " + t + r
 }
 
-func (q query) MarshalJSON() ([]byte, error) { return json.Marshal(q.String()) }
+func (q query) MarshalJSON() ([]byte, error) {
+	if q.IsRange {
+		return json.Marshal(q.String())
+	}
+	return json.Marshal(bstr(q.Pattern))
+}
+
+// bstr is a byte string that survives JSON: valid UTF-8 is written as a JSON string, anything
+// else as {"hex": "..."} (encoding/json would replace invalid bytes by U+FFFD).
+type bstr string
+
+func (b bstr) MarshalJSON() ([]byte, error) {
+	if utf8.ValidString(string(b)) {
+		return json.Marshal(string(b))
+	}
+	return json.Marshal(map[string]string{"hex": hex.EncodeToString([]byte(b))})
+}
+
+func bs(ss []string) []bstr {
+	out := make([]bstr, len(ss))
+	for i, s := range ss {
+		out[i] = bstr(s)
+	}
+	return out
+}
+
+func bss(sss [][]string) [][]bstr {
+	out := make([][]bstr, len(sss))
+	for i, ss := range sss {
+		out[i] = bs(ss)
+	}
+	return out
+}
+
+// unb decodes what bstr wrote (after a generic json.Unmarshal)
+func unb(v any) string {
+	switch x := v.(type) {
+	case string:
+		return x
+	case map[string]any:
+		b, err := hex.DecodeString(x["hex"].(string))
+		if err != nil {
+			panic(err)
+		}
+		return string(b)
+	}
+	panic(fmt.Sprintf("unb: %T", v))
+}
+
+func unbs(v any) []string {
+	var out []string
+	if l, ok := v.([]any); ok {
+		for _, x := range l {
+			out = append(out, unb(x))
+		}
+	}
+	return out
+}
 
 // parseQuery is the inverse of String (for -replay)
 func parseQuery(s string, isRange bool) query {
@@ -397,13 +456,13 @@ func (d *driver) searchCase(class string, ordered bool, first uint32, dict []str
 		tids, p := runSearch(q, tp)
 		if p != nil {
 			d.w.Violate("panic:search", fmt.Sprintf("pattern.Search panics: %v", p.v),
-				map[string]any{"query": q.String(), "ordered": ordered, "first": first, "dict": dict})
+				map[string]any{"query": bstr(q.String()), "ordered": ordered, "first": first, "dict": bs(dict)})
 			return
 		}
 		parts = append(parts, fmt.Sprintf("(%s, %s)", q.coq(), zlist(tids)))
-		e := map[string]any{"q": q.String(), "tids": tids}
+		e := map[string]any{"q": bstr(q.String()), "tids": tids}
 		if s := suspects(q, first, dict, tids); len(s) > 0 {
-			e["tokens_where_go_reference_disagrees"] = s
+			e["tokens_where_go_reference_disagrees"] = bs(s)
 		}
 		impl = append(impl, e)
 		nontriv = nontriv || isNontrivial(q)
@@ -419,7 +478,7 @@ func (d *driver) searchCase(class string, ordered bool, first uint32, dict []str
 	if dictDesc != nil {
 		in["dict_gen"] = dictDesc
 	} else {
-		in["dict"] = dict
+		in["dict"] = bs(dict)
 	}
 	d.w.Add(term, class, nontriv, in, hintsFirst(impl))
 	d.w.Evals(len(qs)*len(dict) - 1)
@@ -460,6 +519,22 @@ type layoutBlock struct {
 	Big    bool // pretend the field is larger than a physical block (forces a new physical block)
 }
 
+func (b layoutBlock) MarshalJSON() ([]byte, error) {
+	return json.Marshal(map[string]any{"Field": b.Field, "Tokens": bs(b.Tokens), "Big": b.Big})
+}
+
+func layoutBlocks(v any) []layoutBlock {
+	var out []layoutBlock
+	if l, ok := v.([]any); ok {
+		for _, x := range l {
+			m := x.(map[string]any)
+			big, _ := m["Big"].(bool)
+			out = append(out, layoutBlock{Field: m["Field"].(string), Tokens: unbs(m["Tokens"]), Big: big})
+		}
+	}
+	return out
+}
+
 // sealedCase builds a token table through the real writeTokensBlocks for the fields
 // before ++ target entries ++ after, then for every query runs the real SelectEntries, a real
 // Provider over the selected entries and the real pattern.Search.
@@ -487,7 +562,7 @@ func (d *driver) sealedCase(class string, before []layoutBlock, entries [][]stri
 		add(b.Field, b.Tokens, !seen[b.Field], b.Big)
 		seen[b.Field] = true
 	}
-	in := map[string]any{"kind": "sealed", "before": before, "entries": entries, "big": big, "after": after, "queries": qs, "ranges": qs[0].IsRange}
+	in := map[string]any{"kind": "sealed", "before": before, "entries": bss(entries), "big": big, "after": after, "queries": qs, "ranges": qs[0].IsRange}
 	table, payloads, err := frac.VerifC13TokenTable(blocks)
 	if err != nil {
 		d.w.Violate("error:token-table", err.Error(), in)
@@ -524,14 +599,14 @@ func (d *driver) sealedCase(class string, before []layoutBlock, entries [][]stri
 			return tids, nil
 		}()
 		if p != nil {
-			in["query"] = q.String()
+			in["query"] = bstr(q.String())
 			d.w.Violate("panic:sealed-search", fmt.Sprintf("SelectEntries/Provider/Search panics: %v", p.v), in)
 			return
 		}
 		parts = append(parts, fmt.Sprintf("(%s, %s)", q.coq(), zlist(tids)))
-		e := map[string]any{"q": q.String(), "tids": tids}
+		e := map[string]any{"q": bstr(q.String()), "tids": tids}
 		if s := suspects(q, first, flat, tids); len(s) > 0 {
-			e["tokens_where_go_reference_disagrees"] = s
+			e["tokens_where_go_reference_disagrees"] = bs(s)
 		}
 		impl = append(impl, e)
 		nontriv = nontriv || isNontrivial(q)
@@ -555,7 +630,7 @@ func (d *driver) kmpCase(class, s, p string) {
 		defer func() { pv = recover() }()
 		got = pattern.VerifC13FindSubstring([]byte(s), []byte(p))
 	}()
-	in := map[string]any{"kind": "kmp", "s": s, "p": p}
+	in := map[string]any{"kind": "kmp", "s": bstr(s), "p": bstr(p)}
 	if pv != nil {
 		d.w.Violate("panic:findSubstring", fmt.Sprint(pv), in)
 		return
@@ -571,7 +646,7 @@ func (d *driver) seqCase(class, s string, ps []string) {
 		defer func() { pv = recover() }()
 		got = pattern.VerifC13FindSequence([]byte(s), toBytes(ps))
 	}()
-	in := map[string]any{"kind": "seq", "s": s, "ps": ps}
+	in := map[string]any{"kind": "seq", "s": bstr(s), "ps": bs(ps)}
 	if pv != nil {
 		d.w.Violate("panic:findSequence", fmt.Sprint(pv), in)
 		return
@@ -583,7 +658,7 @@ func (d *driver) seqCase(class, s string, ps []string) {
 // index, seals, and queries the sealed token index.
 func (d *driver) fracCase(class string, tokens []string, qs []query, bulk int) {
 	sort.Strings(tokens)
-	in := map[string]any{"kind": "frac", "tokens": tokens, "queries": qs, "bulk": bulk, "ranges": false}
+	in := map[string]any{"kind": "frac", "tokens": bs(tokens), "queries": qs, "bulk": bulk, "ranges": false}
 	if len(tokens) > 200 {
 		in["tokens"] = fmt.Sprintf("%d tokens (regenerated from the seed)", len(tokens))
 	}
@@ -637,7 +712,7 @@ func (d *driver) fracCase(class string, tokens []string, qs []query, bulk int) {
 				vals, k, err = frac.VerifC13TokenValues(fs[0], q.token("f"))
 			}()
 			if pv != nil || err != nil {
-				in["query"] = q.String()
+				in["query"] = bstr(q.String())
 				d.w.Violate("panic:"+kind+"-GetTIDsByTokenExpr", fmt.Sprintf("%v %v", pv, err), in)
 				return nil, false
 			}
@@ -667,9 +742,9 @@ func (d *driver) fracCase(class string, tokens []string, qs []query, bulk int) {
 	for i, q := range qs {
 		parts[i] = fmt.Sprintf("(%s, (%s, %s))", q.coq(), dictCoq(act[i]), dictCoq(sea[i]))
 		if len(tokens) <= 200 {
-			impl = append(impl, map[string]any{"q": q.String(), "active": act[i], "sealed": sea[i]})
+			impl = append(impl, map[string]any{"q": bstr(q.String()), "active": bs(act[i]), "sealed": bs(sea[i])})
 		} else {
-			impl = append(impl, map[string]any{"q": q.String(), "active_n": len(act[i]), "sealed_n": len(sea[i])})
+			impl = append(impl, map[string]any{"q": bstr(q.String()), "active_n": len(act[i]), "sealed_n": len(sea[i])})
 		}
 		d.count(q, true)
 		d.count(q, false)
@@ -681,13 +756,33 @@ func (d *driver) fracCase(class string, tokens []string, qs []query, bulk int) {
 
 // ---------------------------------------------------------------- random material
 
-func (d *driver) randString(alpha string, lo, hi int) string {
-	n := d.r.Range(lo, hi)
-	b := make([]byte, n)
-	for i := range b {
-		b[i] = alpha[d.r.Intn(len(alpha))]
+// units of an alphabet: its bytes, or — when it contains '|' — the '|'-separated pieces (multi-byte
+// runes, lone lead/continuation bytes, invalid bytes)
+func units(alpha string) []string {
+	if strings.Contains(alpha, "|") {
+		return strings.Split(alpha, "|")
 	}
-	return string(b)
+	out := make([]string, len(alpha))
+	for i := range out {
+		out[i] = alpha[i : i+1]
+	}
+	return out
+}
+
+// mixed 1/2/3/4-byte runes; and the same with lone lead / continuation / invalid bytes
+const (
+	alphaUTF8    = "a|b|п|р|日|😀"
+	alphaUTF8Bad = "a|b|п|\xd0|\xbf|日|\xe6|\xff|😀|\xf0\x9f"
+)
+
+func (d *driver) randString(alpha string, lo, hi int) string {
+	us := units(alpha)
+	n := d.r.Range(lo, hi)
+	var sb strings.Builder
+	for i := 0; i < n; i++ {
+		sb.WriteString(us[d.r.Intn(len(us))])
+	}
+	return sb.String()
 }
 
 // randPattern derives a pattern from a token (so that matches are frequent): keeps or drops
@@ -837,15 +932,7 @@ func (d *driver) replay(path string) {
 	if in == nil {
 		in = doc.Replay.Input
 	}
-	strs := func(v any) []string {
-		var out []string
-		if l, ok := v.([]any); ok {
-			for _, x := range l {
-				out = append(out, x.(string))
-			}
-		}
-		return out
-	}
+	strs := unbs
 	isRange, _ := in["ranges"].(bool)
 	var qs []query
 	for _, s := range strs(in["queries"]) {
@@ -853,9 +940,9 @@ func (d *driver) replay(path string) {
 	}
 	switch in["kind"] {
 	case "kmp":
-		d.kmpCase("replay", in["s"].(string), in["p"].(string))
+		d.kmpCase("replay", unb(in["s"]), unb(in["p"]))
 	case "seq":
-		d.seqCase("replay", in["s"].(string), strs(in["ps"]))
+		d.seqCase("replay", unb(in["s"]), strs(in["ps"]))
 	case "search":
 		dict := strs(in["dict"])
 		if g, ok := in["dict_gen"].(map[string]any); ok {
@@ -863,14 +950,13 @@ func (d *driver) replay(path string) {
 		}
 		d.searchCase("replay", in["ordered"].(bool), uint32(in["first"].(float64)), dict, "", nil, qs)
 	case "sealed":
-		var before, after []layoutBlock
-		b, _ := json.Marshal(in["before"])
-		json.Unmarshal(b, &before)
-		b, _ = json.Marshal(in["after"])
-		json.Unmarshal(b, &after)
+		before, after := layoutBlocks(in["before"]), layoutBlocks(in["after"])
 		var entries [][]string
-		b, _ = json.Marshal(in["entries"])
-		json.Unmarshal(b, &entries)
+		if l, ok := in["entries"].([]any); ok {
+			for _, e := range l {
+				entries = append(entries, unbs(e))
+			}
+		}
 		big, _ := in["big"].(bool)
 		d.sealedCase("replay", before, entries, big, after, qs)
 	case "frac":
@@ -1080,13 +1166,38 @@ func main() {
 			d.sealedCase("exh-sealed", before, split(toks, sizes), (mask+len(sizes))%5 == 0, after, smallQ)
 		}
 	}
+	// the same over multi-byte values: 1/2/3/4-byte runes and an invalid byte, values sharing a
+	// prefix up to a partial rune, so that for every hint length some MaxVal has a rune straddling
+	// byte offset |hint|; hints are whole runes, partial runes and ASCII
+	uni8 := []string{"a", "ab", "aп", "a日x", "b", "п", "😀", "\xffz"}
+	sort.Strings(uni8)
+	var q8 []query
+	for _, p := range []string{"", "*", "a", "a*", "ab", "ab*", "abc*", "b", "b*", "c*", "aп", "aп*", "a\xd0*", "a\xd0",
+		"a日*", "a\xe6*", "a\xe6\x97*", "a*x", "п", "п*", "\xd0*", "р*", "😀*", "\xf0*", "\xf0\x9f*", "\xf0\x9f\x98*",
+		"\xff*", "*z", "a日x", "ax*"} {
+		q8 = append(q8, query{Pattern: p})
+	}
+	for mask := 1; mask < 1<<len(uni8); mask++ {
+		var toks []string
+		for i, s := range uni8 {
+			if mask>>i&1 == 1 {
+				toks = append(toks, s)
+			}
+		}
+		if !thorough && (len(toks) > 5 || (len(toks) == 5 && (mask+int(*seed))%2 == 0)) {
+			continue // quick: all dictionaries of <= 4 values, half of those with 5
+		}
+		for _, sizes := range compositions(len(toks)) {
+			d.sealedCase("exh-sealed-utf8", nil, split(toks, sizes), false, nil, q8)
+		}
+	}
 	// sealed path, random larger dictionaries and layouts, longer prefixes, ranges
 	nS := 150
 	if thorough {
 		nS = 1500
 	}
 	for i := 0; i < nS; i++ {
-		alpha := rng.Pick(d.r, []string{"ab", "abc", "ab"})
+		alpha := rng.Pick(d.r, []string{"ab", "abc", "ab", alphaUTF8, alphaUTF8Bad})
 		toks := d.randDict(alpha, d.r.Range(3, 40), d.r.Range(2, 10))
 		var qs []query
 		for k := 0; k < 16; k++ {
@@ -1130,7 +1241,7 @@ func main() {
 		nD = 2500
 	}
 	for i := 0; i < nD; i++ {
-		alpha := rng.Pick(d.r, []string{"ab", "abc", "a", "ab"})
+		alpha := rng.Pick(d.r, []string{"ab", "abc", "a", "ab", alphaUTF8, alphaUTF8Bad})
 		toks := d.randDict(alpha, d.r.Range(1, 40), d.r.Range(1, 24))
 		var qs []query
 		for k := 0; k < 16; k++ {
@@ -1161,7 +1272,10 @@ func main() {
 		nF, nBig = 40, 3
 	}
 	for i := 0; i < nF+nBig; i++ {
-		alpha := rng.Pick(d.r, []string{"ab", "abc"})
+		alpha := rng.Pick(d.r, []string{"ab", "abc", alphaUTF8, alphaUTF8Bad})
+		if i == nF {
+			alpha = alphaUTF8Bad // the first multi-block fraction always holds multi-byte / invalid UTF-8 values
+		}
 		var toks []string
 		if i < nF {
 			toks = d.randDict(alpha, d.r.Range(5, 60), d.r.Range(2, 10))
